@@ -14,31 +14,44 @@ import (
 	"time"
 )
 
-func pyTerm(t *Term, syms map[string]bool) (string, bool) {
+// pyDag renders terms as a sequence of Python assignments, one per distinct non-leaf subterm, so that
+// shared subterms (the interpreter builds DAGs) are neither printed nor evaluated more than once.
+type pyDag struct {
+	syms  map[string]bool
+	names map[*Term]string
+	lines []string
+}
+
+func (d *pyDag) term(t *Term) (string, bool) {
+	if n, ok := d.names[t]; ok {
+		return n, true
+	}
+	leaf := func(s string) (string, bool) { return s, true }
+	var expr string
 	switch {
 	case t.IsConst():
 		n := "s_" + sanitizePy(t.ConstName())
-		syms[n] = true
-		return n, true
+		d.syms[n] = true
+		return leaf(n)
 	case t.IsIntLit():
-		return "sp.Integer(" + t.IntVal().String() + ")", true
+		return leaf("sp.Integer(" + t.IntVal().String() + ")")
 	case t.IsRealLit():
 		r := t.RatVal()
-		return fmt.Sprintf("sp.Rational(%s,%s)", r.Num().String(), r.Denom().String()), true
+		return leaf(fmt.Sprintf("sp.Rational(%s,%s)", r.Num().String(), r.Denom().String()))
 	case t.Op == "to_real":
-		return pyTerm(t.Args[0], syms)
+		return d.term(t.Args[0])
 	case t.Op == "+" || t.Op == "-" || t.Op == "*" || t.Op == "/":
-		a, ok1 := pyTerm(t.Args[0], syms)
-		b, ok2 := pyTerm(t.Args[1], syms)
+		a, ok1 := d.term(t.Args[0])
+		b, ok2 := d.term(t.Args[1])
 		if !ok1 || !ok2 {
 			return "", false
 		}
-		return "(" + a + " " + t.Op + " " + b + ")", true
+		expr = "(" + a + " " + t.Op + " " + b + ")"
 	case strings.HasPrefix(t.Op, "f:"):
 		name := t.Op[2:]
 		var args []string
 		for _, a := range t.Args {
-			s, ok := pyTerm(a, syms)
+			s, ok := d.term(a)
 			if !ok {
 				return "", false
 			}
@@ -46,21 +59,27 @@ func pyTerm(t *Term, syms map[string]bool) (string, bool) {
 		}
 		switch name {
 		case "exp", "log", "sin", "cos", "tan", "sinh", "cosh", "tanh", "sqrt", "erf", "erfc", "gamma":
-			return "sp." + name + "(" + strings.Join(args, ",") + ")", true
+			expr = "sp." + name + "(" + strings.Join(args, ",") + ")"
 		case "log1p":
-			return "sp.log(1 + " + args[0] + ")", true
+			expr = "sp.log(1 + " + args[0] + ")"
 		case "pi":
-			return "sp.pi", true
+			return leaf("sp.pi")
 		case "sqrtpi":
-			return "sp.sqrt(sp.pi)", true
+			return leaf("sp.sqrt(sp.pi)")
 		case "pow":
-			return "(" + args[0] + ")**(" + args[1] + ")", true
+			expr = "(" + args[0] + ")**(" + args[1] + ")"
+		default:
+			fn := "uf_" + sanitizePy(name)
+			d.syms["F:"+fn] = true
+			expr = fn + "(" + strings.Join(args, ",") + ")"
 		}
-		fn := "uf_" + sanitizePy(name)
-		syms["F:"+fn] = true
-		return fn + "(" + strings.Join(args, ",") + ")", true
+	default:
+		return "", false
 	}
-	return "", false
+	n := fmt.Sprintf("v%d", len(d.names))
+	d.names[t] = n
+	d.lines = append(d.lines, n+" = "+expr)
+	return n, true
 }
 
 func sanitizePy(s string) string {
@@ -76,7 +95,7 @@ func sanitizePy(s string) string {
 }
 
 // sympyProve returns true if goal (an equality or conjunction of equalities) is an identity.
-func sympyProve(goal *Term, timeout time.Duration, workfile string) (bool, string, float64) {
+func sympyProve(goal *Term, hyps []*Term, timeout time.Duration, workfile string) (bool, string, float64) {
 	var eqs []*Term
 	var collectEq func(t *Term) bool
 	collectEq = func(t *Term) bool {
@@ -99,16 +118,48 @@ func sympyProve(goal *Term, timeout time.Duration, workfile string) (bool, strin
 	if !collectEq(goal) || len(eqs) == 0 {
 		return false, "goal is not a conjunction of real equalities", 0
 	}
-	syms := map[string]bool{}
+	dag := &pyDag{syms: map[string]bool{}, names: map[*Term]string{}}
 	var lines []string
 	for _, e := range eqs {
-		a, ok1 := pyTerm(e.Args[0], syms)
-		b, ok2 := pyTerm(e.Args[1], syms)
+		a, ok1 := dag.term(e.Args[0])
+		b, ok2 := dag.term(e.Args[1])
 		if !ok1 || !ok2 {
 			return false, "term outside the sympy fragment", 0
 		}
 		lines = append(lines, "eqs.append(("+a+", "+b+"))")
 	}
+	// hypotheses that are comparisons of real terms are handed over as (lhs - rhs, op); the script uses the
+	// ones that pin down the sign of a single symbol (so that |t|, sqrt(t^2) simplify on this path)
+	var hlines []string
+	for _, h := range hyps {
+		neg := false
+		if h.Op == "not" {
+			neg = true
+			h = h.Args[0]
+		}
+		op := h.Op
+		switch op {
+		case "<", "<=", ">", ">=", "=":
+		default:
+			continue
+		}
+		if len(h.Args) != 2 || h.Args[0].S != SReal {
+			continue
+		}
+		if neg {
+			op = map[string]string{"<": ">=", "<=": ">", ">": "<=", ">=": "<", "=": "!="}[op]
+		}
+		if op == "=" {
+			op = "=="
+		}
+		a, ok1 := dag.term(h.Args[0])
+		b, ok2 := dag.term(h.Args[1])
+		if !ok1 || !ok2 {
+			continue
+		}
+		hlines = append(hlines, "hyps.append(("+a+" - "+b+", '"+op+"'))")
+	}
+	syms := dag.syms
 	var sb strings.Builder
 	// the script ends itself should the checker be killed while it runs
 	sb.WriteString(fmt.Sprintf("import signal\nsignal.alarm(%d)\n", int(timeout.Seconds())+5))
@@ -120,8 +171,63 @@ func sympyProve(goal *Term, timeout time.Duration, workfile string) (bool, strin
 			sb.WriteString(s + " = sp.Symbol('" + s + "', real=True)\n")
 		}
 	}
+	sb.WriteString(strings.Join(dag.lines, "\n") + "\n")
 	sb.WriteString("eqs = []\n" + strings.Join(lines, "\n") + "\n")
-	sb.WriteString(`ok = True
+	sb.WriteString("hyps = []\n" + strings.Join(hlines, "\n") + "\n")
+	sb.WriteString(`
+# sign information from single-symbol hypotheses
+def refine(eqs, hyps):
+    dom = {}
+    nz = set()
+    for (e, op) in hyps:
+        try:
+            fs = e.free_symbols
+            if len(fs) != 1 or e.has(sp.Function('uf')):
+                continue
+            x = list(fs)[0]
+            if op == '!=':
+                f = sp.factor(sp.simplify(e))
+                c, p = f.as_coeff_Mul()
+                if p == x or (p.is_Pow and p.base == x):
+                    nz.add(x)
+                continue
+            if op == '==':
+                sol = sp.solveset(e, x, sp.S.Reals)
+            else:
+                rel = {'<': e < 0, '<=': e <= 0, '>': e > 0, '>=': e >= 0}[op]
+                sol = sp.solve_univariate_inequality(rel, x, relational=False)
+            dom[x] = dom.get(x, sp.S.Reals).intersect(sol)
+        except Exception:
+            continue
+    repl = {}
+    for x in set(dom) | nz:
+        d = dom.get(x, sp.S.Reals)
+        if x in nz:
+            d = d - sp.FiniteSet(0)
+        try:
+            if d == sp.FiniteSet(0):
+                repl[x] = sp.Integer(0)
+            elif d.is_subset(sp.Interval.open(0, sp.oo)):
+                repl[x] = sp.Symbol(x.name, positive=True)
+            elif d.is_subset(sp.Interval.open(-sp.oo, 0)):
+                repl[x] = sp.Symbol(x.name, negative=True)
+            elif d.is_subset(sp.Interval(0, sp.oo)):
+                repl[x] = sp.Symbol(x.name, nonnegative=True)
+            elif d.is_subset(sp.Interval(-sp.oo, 0)):
+                repl[x] = sp.Symbol(x.name, nonpositive=True)
+            elif x in nz:
+                repl[x] = sp.Symbol(x.name, real=True, nonzero=True)
+        except Exception:
+            continue
+    if not repl:
+        return eqs, hyps, False
+    return [(a.subs(repl), b.subs(repl)) for (a, b) in eqs], [(e.subs(repl), op) for (e, op) in hyps], True
+
+for _ in range(3):
+    eqs, hyps, changed = refine(eqs, hyps)
+    if not changed:
+        break
+ok = True
 for (a, b) in eqs:
     d = a - b
     z = sp.simplify(sp.expand_log(sp.expand(sp.together(d)), force=True))
